@@ -167,7 +167,7 @@ CHECKS = {
     note="Text coordinates of arbitrary doubles are only required to lie within half a unit of the requested digit and to have at "
          "most that many digits; exact text is compared for values +-(n + k/8) up to 2^28 only (binary->decimal rounding is not "
          "expressible in TLC). Mercator expectations use osmium's own projection object (its accuracy is C18). Location tokens are "
-         "mapped by three fixed valuations (small, range borders, 7-digit). Area rings are non-empty and assembler-shaped apart from "
+         "mapped by three fixed valuations (small, range borders, 7-digit; areas also by a fourth in which all rings share their locations). Area rings are non-empty and assembler-shaped apart from "
          "injected duplicate/undefined/invalid locations; ring-size validation in create_multipolygon is outside the quantifier. "
          "Quick tier uses one valuation and one non-default precision per case. GEOS/OGR factories not run (libraries not installed).",
     technique="TLA+ specs + TLC refinement check (exhaustive small domains, simulation for call histories); spec-to-code replay "
